@@ -610,6 +610,13 @@ impl GlobalInferenceCtx<'_> {
 
         let mut idx = 0;
         while let Some((loc, expr)) = to_check.get(idx).copied() {
+            // an expression that was already looked at (a global that refers to itself) doesn't
+            // have to be looked at again, otherwise this loop would never end
+            if to_check[..idx].contains(&(loc, expr)) {
+                idx += 1;
+                continue;
+            }
+
             let result = match &self.world_bodies[loc.file()][expr] {
                 Expr::Missing
                 | Expr::Lambda(_)
